@@ -277,6 +277,34 @@ pub fn new_stream<T>() -> (WriteStream<T>, ReadStream<T>) {
     (WriteStream { circ: circ.clone() }, ReadStream { circ })
 }
 
+#[cfg(feature = "verif")]
+impl<T> ReadStream<T> {
+    /// Dump internal state of the underlying buffer.
+    #[must_use]
+    pub fn verif_dump(&self) -> crate::verif::BufferDump {
+        self.circ.verif_dump()
+    }
+    /// Identity of the underlying buffer.
+    #[must_use]
+    pub fn verif_buffer_id(&self) -> usize {
+        self.circ.verif_id()
+    }
+}
+
+#[cfg(feature = "verif")]
+impl<T> WriteStream<T> {
+    /// Dump internal state of the underlying buffer.
+    #[must_use]
+    pub fn verif_dump(&self) -> crate::verif::BufferDump {
+        self.circ.verif_dump()
+    }
+    /// Identity of the underlying buffer.
+    #[must_use]
+    pub fn verif_buffer_id(&self) -> usize {
+        self.circ.verif_id()
+    }
+}
+
 /// Create a stream as directed by the verification plan.
 ///
 /// The stream can be small, and can have seen traffic already: `offset`
